@@ -223,6 +223,13 @@ class FloatLiteral(Literal[float]):
 
     __slots__ = ()
 
+    def __str__(self) -> str:
+        # Keep a fraction, so that exponent notation reads back as a float.
+        mantissa, exp, exponent = repr(self.value).partition("e")
+        if exp and "." not in mantissa:
+            mantissa += ".0"
+        return f"{mantissa}{exp}{exponent}"
+
 
 class RegexLiteral(Literal[Pattern[str]]):
     """A regex literal."""
